@@ -20,7 +20,7 @@
 
 #if defined(SIM_ASAN)
 extern "C" __attribute__((used)) const char *__asan_default_options() {
-    return "exitcode=77:detect_leaks=0:alloc_dealloc_mismatch=1:handle_abort=1:abort_on_error=0:max_allocation_size_mb=2048:allocator_may_return_null=0:detect_stack_use_after_return=0:symbolize=1";
+    return "exitcode=77:detect_leaks=0:alloc_dealloc_mismatch=1:handle_abort=1:abort_on_error=0:max_allocation_size_mb=256:allocator_may_return_null=0:detect_stack_use_after_return=0:symbolize=1";
 }
 #endif
 #if defined(SIM_TSAN)
@@ -326,6 +326,39 @@ int cmd_worker(int argc, char **argv) {
     std::vector<uint64_t> idx;
     if (!only.empty()) { std::istringstream ls(only); std::string t; while (std::getline(ls, t, ',')) idx.push_back(std::strtoull(t.c_str(), nullptr, 10)); }
     else for (uint64_t i = from + offset; i < from + count; i += stride) idx.push_back(i);
+    // C18: every case in its own forked child. State the library initialises at first use (function-local statics, lazily
+    // built tables) is then virgin when the case's threads start - in a long-lived worker only the first case would ever
+    // meet it. The child prints what the worker would print for that one case; the parent relays it.
+    bool isolate = prop == "C18" && !flag(argc, argv, "--no-isolate");
+    auto summary = [&](const RunStats &tot) {
+        std::printf("STATES");
+        for (auto s : tot.states) std::printf(" %llx", static_cast<unsigned long long>(s));
+        std::printf("\nBIGRAMS");
+        for (auto &kv : tot.bigrams) std::printf(" %s>%s:%llu", op_name(kv.first.first), op_name(kv.first.second), static_cast<unsigned long long>(kv.second));
+        std::printf("\nPROBES");
+        for (auto &kv : tot.probes) std::printf(" %s=%llu", kv.first.c_str(), static_cast<unsigned long long>(kv.second));
+        DiskTotals dt = disk_totals();
+        std::printf("\nDISK opens=%llu write_calls=%llu read_calls=%llu seeks=%llu bytes_written=%llu bytes_read=%llu open_fail=%llu budget=%llu eio=%llu short_write=%llu eintr_w=%llu eintr_r=%llu short_read=%llu seek_fail=%llu\n",
+                    static_cast<unsigned long long>(dt.opens), static_cast<unsigned long long>(dt.write_calls), static_cast<unsigned long long>(dt.read_calls),
+                    static_cast<unsigned long long>(dt.seeks), static_cast<unsigned long long>(dt.bytes_written), static_cast<unsigned long long>(dt.bytes_read),
+                    static_cast<unsigned long long>(dt.f_open_fail), static_cast<unsigned long long>(dt.f_budget), static_cast<unsigned long long>(dt.f_eio),
+                    static_cast<unsigned long long>(dt.f_short_write), static_cast<unsigned long long>(dt.f_eintr_w), static_cast<unsigned long long>(dt.f_eintr_r),
+                    static_cast<unsigned long long>(dt.f_short_read), static_cast<unsigned long long>(dt.f_seek));
+        std::printf("RATIOS worst_read_ratio=%.4f worst_heap_ratio=%.2f\n", tot.worst_read_ratio, tot.worst_heap_ratio);
+    };
+    auto one_case = [&](uint64_t i, RunStats &tot, bool sample) {
+        Case c = gen_case(prop, tier, seed, i);
+        CaseResult r = run_case(c, prog ? prog + 1 : nullptr);
+        print_result(c, r);
+        if (stepHashes) { std::printf("STEPS i=%llu", static_cast<unsigned long long>(i)); for (auto h : r.step_hashes) std::printf(" %016llx", static_cast<unsigned long long>(h)); std::printf("\n"); }
+        if (sample) std::printf("SAMPLE %s\n", oneline(case_sample(c)).c_str());
+        std::fflush(stdout);
+        tot.states.insert(r.st.states.begin(), r.st.states.end());
+        for (auto &kv : r.st.bigrams) tot.bigrams[kv.first] += kv.second;
+        for (auto &kv : r.st.probes) tot.probes[kv.first] += kv.second;
+        tot.worst_read_ratio = std::max(tot.worst_read_ratio, r.st.worst_read_ratio);
+        tot.worst_heap_ratio = std::max(tot.worst_heap_ratio, r.st.worst_heap_ratio);
+    };
     for (uint64_t i : idx) {
         std::printf("BEGIN %llu\n", static_cast<unsigned long long>(i));
         std::fflush(stdout);
@@ -333,32 +366,37 @@ int cmd_worker(int argc, char **argv) {
         std::snprintf(ctx, sizeof ctx, "case=%llu", static_cast<unsigned long long>(i));
         crash_context(ctx);
         if (prog) { prog[0] = i; prog[1] = 0; }
-        Case c = gen_case(prop, tier, seed, i);
-        CaseResult r = run_case(c, prog ? prog + 1 : nullptr);
-        print_result(c, r);
-        if (stepHashes) { std::printf("STEPS i=%llu", static_cast<unsigned long long>(i)); for (auto h : r.step_hashes) std::printf(" %016llx", static_cast<unsigned long long>(h)); std::printf("\n"); }
-        if (nSamples < 3) { std::printf("SAMPLE %s\n", oneline(case_sample(c)).c_str()); ++nSamples; }
-        std::fflush(stdout);
-        total.states.insert(r.st.states.begin(), r.st.states.end());
-        for (auto &kv : r.st.bigrams) total.bigrams[kv.first] += kv.second;
-        for (auto &kv : r.st.probes) total.probes[kv.first] += kv.second;
-        total.worst_read_ratio = std::max(total.worst_read_ratio, r.st.worst_read_ratio);
-        total.worst_heap_ratio = std::max(total.worst_heap_ratio, r.st.worst_heap_ratio);
+        if (!isolate) { one_case(i, total, nSamples < 3); ++nSamples; continue; }
+        int pfd[2];
+        if (pipe(pfd) != 0) { one_case(i, total, nSamples < 3); ++nSamples; continue; }
+        pid_t pid = fork();
+        if (pid == 0) {
+            close(pfd[0]);
+            dup2(pfd[1], 1);
+            dup2(pfd[1], 2);
+            close(pfd[1]);
+            RunStats mine;
+            one_case(i, mine, nSamples < 3);
+            summary(mine);
+            std::fflush(stdout);
+            _exit(0);
+        }
+        close(pfd[1]);
+        char buf[65536];
+        ssize_t nr;
+        while ((nr = read(pfd[0], buf, sizeof buf)) > 0) { size_t off = 0; while (off < static_cast<size_t>(nr)) { ssize_t w = write(1, buf + off, static_cast<size_t>(nr) - off); if (w <= 0) break; off += static_cast<size_t>(w); } }
+        close(pfd[0]);
+        int status = 0;
+        waitpid(pid, &status, 0);
+        ++nSamples;
+        if (!(WIFEXITED(status) && WEXITSTATUS(status) == 0)) {
+            // the case killed its process (crash handler: 70, ASan: 77, TSan: 66, a raw signal): the worker dies with it, the
+            // supervisor gates the case and restarts the worker behind it
+            std::fflush(stdout);
+            _exit(WIFEXITED(status) ? WEXITSTATUS(status) : 128 + WTERMSIG(status));
+        }
     }
-    std::printf("STATES");
-    for (auto s : total.states) std::printf(" %llx", static_cast<unsigned long long>(s));
-    std::printf("\nBIGRAMS");
-    for (auto &kv : total.bigrams) std::printf(" %s>%s:%llu", op_name(kv.first.first), op_name(kv.first.second), static_cast<unsigned long long>(kv.second));
-    std::printf("\nPROBES");
-    for (auto &kv : total.probes) std::printf(" %s=%llu", kv.first.c_str(), static_cast<unsigned long long>(kv.second));
-    DiskTotals dt = disk_totals();
-    std::printf("\nDISK opens=%llu write_calls=%llu read_calls=%llu seeks=%llu bytes_written=%llu bytes_read=%llu open_fail=%llu budget=%llu eio=%llu short_write=%llu eintr_w=%llu eintr_r=%llu short_read=%llu seek_fail=%llu\n",
-                static_cast<unsigned long long>(dt.opens), static_cast<unsigned long long>(dt.write_calls), static_cast<unsigned long long>(dt.read_calls),
-                static_cast<unsigned long long>(dt.seeks), static_cast<unsigned long long>(dt.bytes_written), static_cast<unsigned long long>(dt.bytes_read),
-                static_cast<unsigned long long>(dt.f_open_fail), static_cast<unsigned long long>(dt.f_budget), static_cast<unsigned long long>(dt.f_eio),
-                static_cast<unsigned long long>(dt.f_short_write), static_cast<unsigned long long>(dt.f_eintr_w), static_cast<unsigned long long>(dt.f_eintr_r),
-                static_cast<unsigned long long>(dt.f_short_read), static_cast<unsigned long long>(dt.f_seek));
-    std::printf("RATIOS worst_read_ratio=%.4f worst_heap_ratio=%.2f\n", total.worst_read_ratio, total.worst_heap_ratio);
+    if (!isolate) summary(total);
     std::printf("DONE\n");
     return 0;
 }
@@ -383,17 +421,26 @@ int cmd_gate(int argc, char **argv) {
     }
     Outcome o1 = run_in_child(c), o2 = run_in_child(c);
     if (o1.keys.empty()) { std::printf("GATE result=no-repro\n"); return 3; }
-    if (o1.sig() != o2.sig()) { std::printf("GATE result=nondeterministic first=%s second=%s\n", o1.sig().c_str(), o2.sig().c_str()); return 2; }
     std::string key = (!want.empty() && o1.keys.count(want)) ? want : o1.firstKey;
-    if (!flag(argc, argv, "--no-shrink")) shrink_case(c, key, o1.failing_alt);
+    bool unstable = false;
+    if (o1.sig() != o2.sig()) {
+        // Same plan, two runs, two different traces. If both runs violate the SAME assertion the difference is in what the
+        // library did (bytes taken from memory it does not own differ from run to run: C14's subject, and any
+        // use-after-free); that is a violation to report, with the instability stated. Anything else is the harness.
+        if (o2.keys.count(key)) unstable = true;
+        else { std::printf("GATE result=nondeterministic first=%s second=%s\n", o1.sig().c_str(), o2.sig().c_str()); return 2; }
+    }
+    if (!flag(argc, argv, "--no-shrink") && !unstable) shrink_case(c, key, o1.failing_alt);
     Outcome o3 = run_in_child(c);
+    for (int again = 0; again < 2 && unstable && !o3.keys.count(key); ++again) o3 = run_in_child(c);
     if (!o3.keys.count(key)) { std::printf("GATE result=nondeterministic after-shrink\n"); return 2; }
+    if (unstable) c.plans[0].notes.push_back("two runs of this plan violate the same assertion with different traces: what the library reads or writes here differs from run to run");
     // C18: pin the schedule that was actually taken is not needed (a pure function of sched.seed and the plans)
     c.plans[0].notes.push_back("violation " + key + ": " + o3.detail);
     std::ofstream f(out);
     f << case_to_text(c);
     f.close();
-    std::printf("GATE result=ok key=%s replay=%s kind=%s detail=%s\n", key.c_str(), out.c_str(), o3.kind.c_str(), oneline(o3.detail).c_str());
+    std::printf("GATE result=ok key=%s replay=%s kind=%s%s detail=%s\n", key.c_str(), out.c_str(), o3.kind.c_str(), unstable ? "+unstable" : "", oneline(o3.detail).c_str());
     return 0;
 }
 
